@@ -65,12 +65,39 @@ def parseSel (s : String) : Option Selector :=
     pure ⟨n, ps⟩
   | _ => none
 
-/-- `<runid>/<name|->/<k=v,...|+>` -/
+/-- a JSON column: `~` SQL NULL, `+` the empty object, else `k=v,...` -/
+def parseCol (s : String) : Option (Option (List (String × JVal))) :=
+  if s == "~" then some none else if s == "+" then some (some []) else (parseList parseKV "," s).map some
+
+/-- `<runid>/<name|->/<properties_pre: k=v,...|+|~>[/<properties_post>]`: the run as the WHERE clause sees it (`RunCols.info`) -/
 def parseRun (s : String) : Option (Nat × RunInfo) :=
   match s.splitOn "/" with
   | [i, n, ps] => do
-    let ps ← (if ps == "+" then some [] else parseList parseKV "," ps)
-    pure (← i.toNat?, ⟨← parseOptName n, ps⟩)
+    pure (← i.toNat?, (RunCols.mk (← parseOptName n) (← parseCol ps) none).info)
+  | [i, n, ps, post] => do
+    pure (← i.toNat?, (RunCols.mk (← parseOptName n) (← parseCol ps) (← parseCol post)).info)
+  | _ => none
+
+def showJVal : JVal → String
+  | .null => "z"
+  | .num n => s!"n{n}"
+  | .str t => "s" ++ Gallia.hexStr t.toUTF8.toList
+  | .json t => "j" ++ Gallia.hexStr t.toUTF8.toList
+
+def showCol : Option (List (String × JVal)) → String
+  | none => "~"
+  | some [] => "+"
+  | some kvs => ",".intercalate (kvs.map fun kv => s!"{Gallia.hexStr kv.1.toUTF8.toList}={showJVal kv.2}")
+
+/-- `pre:<col>` | `post:<col>` : `insert_scan_run_properties_pre` / `complete_scan_run` -/
+def parseRunCall (s : String) : Option RunCall :=
+  match s.splitOn ":" with
+  | ["pre", c] => do
+    let c ← parseCol c
+    c.map RunCall.insertPre
+  | ["post", c] => do
+    let c ← parseCol c
+    c.map RunCall.complete
   | _ => none
 
 def parseDbRow (runs : List (Nat × RunInfo)) (s : String) : Option DbRow :=
@@ -148,6 +175,12 @@ def step (line : String) : String :=
         let r := parseRecorded b
         s!"{showKind (classify b)} {showKind r.kind} {match r with | .typed _ => "typed" | .raw _ => "raw"} {hexOrDash r.pdu} {hexOrDash (reqKey b)}"
       | none => "bad-op"
+    | ["runcols", sel, calls] =>
+      match parseSel sel, parseList parseRunCall ";" calls with
+      | some sel, some calls =>
+        let rc := RunCols.after none calls
+        s!"{showCol rc.pre}/{showCol rc.post} sel={if selects sel rc.info then 1 else 0}"
+      | _, _ => "bad-op"
     | ["statematch", srv, row] =>
       match parseObj srv, parseObj row with
       | some srv, some row =>
